@@ -90,6 +90,7 @@ func Auto(w http.ResponseWriter, r *http.Request, obj any) (err error) {
 			handled = true
 			break
 		case httpctype.MIMEXML:
+			fallthrough
 		case httpctype.MIMEXML2:
 			err = XML(w, obj)
 			handled = true
